@@ -204,6 +204,21 @@ PROPS = {
              "checks": {"quick": 3000, "thorough": 150000}, "shards": {"quick": 4, "thorough": 4}},
         ],
     },
+    "C14": {
+        "level": "exploration", "sim": True,
+        "technique": "property-based testing (rapid): generated watch events (add/update/delete, tombstones, resync replays) on every role of object delivered directly to the controller's handlers with workers disabled; oracle = a reference predicate over the parent cache computing the exact set of parents that must be queued, compared with the recording work queue; queued keys must parse back to that parent",
+        "level_text": "handlers are driven directly so that tombstones, resync replays and near-miss owner references are generated values; the expected set of woken parents is recomputed independently for every event",
+        "rule": ("rapid-generated cases: config (composite/decorator, namespaced/cluster parent, generateSelector, ignoreStatusChanges, controller label/annotation selector, finalize hook, customize rules) x 4 parents (matching/unmatching, with/without finalizer, shared child selector, other namespace) x 4-9 events: "
+                 "parent add/update(status|labels|annotations|generation|deleting)/delete/tombstone/resync, child add/update/same-rv/delete/tombstone with owner reference none|controller|wrong-uid|wrong-kind|wrong-group|plain-owner|other-version and matching/non-matching labels, related-object events entering/leaving the selection; "
+                 "non-trivial = at least one event had a non-empty must-enqueue set; distinct = distinct choice sequences"),
+        "jobs": [
+            {"name": "c14-regress", "pkg": DECORATOR, "tests": ["TestVerifC14Regressions"]},
+            {"name": "c14-composite", "pkg": COMPOSITE, "tests": ["TestVerifC14Composite"],
+             "checks": {"quick": 4000, "thorough": 200000}, "shards": {"quick": 6, "thorough": 8}},
+            {"name": "c14-decorator", "pkg": DECORATOR, "tests": ["TestVerifC14Decorator"],
+             "checks": {"quick": 3000, "thorough": 120000}, "shards": {"quick": 4, "thorough": 6}},
+        ],
+    },
     "C16": {
         "level": "exploration", "sim": True,
         "technique": "property-based testing (rapid): generated targets, selectors and decorator hook answers; oracle = diff of the target before/after each sync against 'before + named label/annotation keys + status + own finalizer', plus request-log rules (no write when nothing changes, spec never touched, foreign attachments never written)",
